@@ -354,6 +354,11 @@ template <class T, prophy::endianness E> int run_dec(const char* hex)
         for (size_t i = 0; i < w && i < out.size(); i++) printf("%%02x", out[i]);
         size_t clobber = 0; for (size_t i = (w > g ? w : g); i < out.size(); i++) if (out[i] != 0xAA) clobber++;
         printf(" clobber=%%zu", clobber);
+        std::vector<uint8_t> l(g + 64, 0), b(g + 64, 0), na(g + 64, 0);
+        size_t wl = x->template encode<prophy::little>(l.data()), wb = x->template encode<prophy::big>(b.data()), wn = x->template encode<prophy::native>(na.data());
+        printf(" le="); for (size_t i = 0; i < wl && i < l.size(); i++) printf("%%02x", l[i]);
+        printf(" be="); for (size_t i = 0; i < wb && i < b.size(); i++) printf("%%02x", b[i]);
+        printf(" na="); for (size_t i = 0; i < wn && i < na.size(); i++) printf("%%02x", na[i]);
     }
     printf("\n");
     free(buf);
@@ -404,6 +409,9 @@ def native_decode(chunk, struct, e, data):
         r.update(ok=int(m.group(1)), maxreq=int(m.group(2)))
         if m.group(3) is not None:
             r.update(gbs=int(m.group(3)), written=int(m.group(4)), out=m.group(5), clobber=int(m.group(6)))
+    m = re.search(r' le=([0-9a-f]*) be=([0-9a-f]*) na=([0-9a-f]*)', out)
+    if m:
+        r.update(le=m.group(1), be=m.group(2), na=m.group(3))
     r['asan'] = 'AddressSanitizer' in (err or '')
     r['ubsan'] = 'runtime error' in (err or '')
     r['abort'] = rc in (134, -6) or 'terminate called' in (err or '') or 'Assertion' in (err or '')
